@@ -324,3 +324,56 @@ def blank_only_separators(prog, chk, rule="A14.separators"):
                 root = prog.bodies[rid]
                 chk.ob(not missing or ws_split, rule, f"{root.short}:{''.join(sorted(chars))!r}", bd.where(x, t.get("line")), "a string cut at blanks is cut at every white-space character", f"{root.short} cuts a string at {sorted(chars)} only: a blank separates the parts but {missing!r} (tab / newline / carriage return, which an attribute value may contain wherever it may contain a blank) do not - `1<TAB>2` stays one token, so a pair is not split or a number list fails to parse")
     chk.note(f"{rule}: {n} split(s) on a literal character set containing the blank")
+
+
+
+_TRIMS = ("trim", "trim_end", "trim_start", "trim_matches", "trim_end_matches", "trim_start_matches", "trim_ascii", "trim_ascii_end", "trim_ascii_start")
+
+
+def empty_test_before_trim(prog, chk, rule="A14.trim-then-test"):
+    """in an iterator chain over the pieces of a string, pieces are dropped for being empty *after* they were trimmed:
+    a `filter(|p| !p.is_empty())` applied to untrimmed pieces, followed by a `map` that trims them, lets a piece of
+    blanks through and hands the next stage an empty string (`transform="translate(1) "` -> "No transform args")"""
+    from sa import rules as R
+    from sa.prog import Callee, op_place
+
+    n = 0
+    for b in prog.bodies.values():
+        if b.unit != "svgdx-lib":
+            continue
+        for (fb, ft, fc) in b.call_sites(lambda c: c.decl_path == "std::iter::Iterator::filter"):
+            if len(ft["args"]) < 2 or "str" not in (fc.self_ty or ""):
+                continue
+            cid = R.closure_id_of_operand(b, ft["args"][1])
+            cb = prog.bodies.get(cid) if cid is not None else None
+            if cb is None or not cb.call_sites(lambda c: c.path.endswith("<impl str>::is_empty")):
+                continue
+            n += 1
+            pl = op_place(ft["args"][1])
+            cty = b.local_ty(pl[0]) if pl is not None else ""
+            m = re.search(r"\{closure@[^}]*\}", cty or "")
+            if not m:
+                continue
+            ctag = m.group(0)
+            # were the pieces trimmed before the test?  (a Map inside the filtered iterator whose closure trims)
+            trimmed_before = False
+            for (mb, mt, mc) in b.call_sites(lambda c: c.decl_path == "std::iter::Iterator::map"):
+                mcid = R.closure_id_of_operand(b, mt["args"][1]) if len(mt["args"]) > 1 else None
+                mcb = prog.bodies.get(mcid) if mcid is not None else None
+                mpl = op_place(mt["args"][1]) if len(mt["args"]) > 1 else None
+                mty = b.local_ty(mpl[0]) if mpl is not None else ""
+                mm = re.search(r"\{closure@[^}]*\}", mty or "")
+                trims = mcb is not None and bool(mcb.call_sites(lambda c: c.path.split("::")[-1] in _TRIMS and "str" in c.path))
+                if not trims or not mm:
+                    continue
+                if mm.group(0) in (fc.self_ty or ""):
+                    trimmed_before = True
+            for (mb, mt, mc) in b.call_sites(lambda c: c.decl_path == "std::iter::Iterator::map"):
+                mcid = R.closure_id_of_operand(b, mt["args"][1]) if len(mt["args"]) > 1 else None
+                mcb = prog.bodies.get(mcid) if mcid is not None else None
+                trims = mcb is not None and bool(mcb.call_sites(lambda c: c.path.split("::")[-1] in _TRIMS and "str" in c.path))
+                if trims and ctag in (mc.self_ty or ""):
+                    # a trimming map downstream of the emptiness filter
+                    if not trimmed_before:
+                        chk.bad(rule, f"{b.short}:filter-then-trim", b.where(fb, ft.get("line")), f"{b.short} drops empty pieces before trimming them ({b.where(mb, mt.get('line'))} trims what the filter let through): a piece that consists of blanks only survives the filter and reaches the next stage as an empty string - a value with trailing (or only) white space is rejected instead of read")
+    chk.note(f"{rule}: {n} emptiness filter(s) over string pieces")
